@@ -54,7 +54,7 @@ RULE = ("Well-typed closed terms over the signatures of the library theories log
         "result must be alpha-equal to the JSON original by the independent reference (vlib.ref) AND equal by holpy ==; "
         "ASCII mode must print ASCII only and Unicode mode none of the ASCII operator spellings. Non-trivial: >= 2 table "
         "operators nested, or a binder, or the text contains '::' (types: a constructor with arguments; sequents: >= 1 "
-        "hypothesis; items: arguments or a sequent present); distinct by kind+theory+printed text.")
+        "hypothesis; items: arguments or a sequent present); distinct by kind+theory+term (printed text for the other kinds).")
 ASSUMPTIONS = [
     "Inst objects are compared on their term map only: tyinst / var_inst / abs_name_inst of kernel.term.Inst have no "
     "concrete syntax in export_proof_item and are generated empty",
@@ -687,7 +687,8 @@ def check_term(case, H):
                 kl.append('hist:compared-with-fresh-process')
                 if compare_with_fresh(case, r['text'], status, answers[0], answers[1], H):
                     kl.append('!hist:text-differs')
-    key = 'term|%s|%s' % (thname, r.get('text') if r.get('text') is not None else harness.canon(j))
+    # distinct by theory + term (not by printed text: the text of alpha-equal terms depends on the printing history)
+    key = 'term|%s|%s' % (thname, harness.canon(j))
     H.case(case, nontrivial, kl, key=key)
     return r
 
@@ -717,15 +718,17 @@ def compare_with_fresh(case, text, status, polluted, alone, H):
 
 
 def history_feature(case, got, fresh):
-    """Which prefix op is responsible: re-run is not possible in-process (the memo is polluted), so classify by the
-    kinds present and by how the texts differ."""
+    """How the two texts differ: only in white space, only in (bound) names, or in structure / symbols."""
     import re
-    a = re.sub(r'[A-Za-z_][A-Za-z0-9_]*', 'N', got)
-    b = re.sub(r'[A-Za-z_][A-Za-z0-9_]*', 'N', fresh)
-    if a == b:
-        return 'bound-names'
-    if re.sub(r'\s+', ' ', got) == re.sub(r'\s+', ' ', fresh):
+
+    def norm(x, names):
+        if names:
+            x = re.sub(r'[A-Za-z_][A-Za-z0-9_]*', 'N', x)
+        return re.sub(r'\s+', ' ', x)
+    if norm(got, False) == norm(fresh, False):
         return 'layout'
+    if norm(got, True) == norm(fresh, True):
+        return 'bound-names'          # (line breaks may move with the length of the names)
     return 'structure'
 
 
